@@ -476,6 +476,16 @@ example : endOk 5 (joinPending 5 ([OpC.claim 3, .base (.msgPause 0)].foldl (appl
 example : stepC pr ([OpC.claim 3].foldl (applyC pr) s3c) (.base (.msgPause 3)) = none := by decide
 example : stepC pr s3c (.claim 1) = none := by decide
 
+/-- **a recovery rotation of a validator's owner changes neither the application's view of who is active nor the
+consensus set**: the invariant and the bookkeeping of unclaimed accounts carry over unchanged -/
+theorem rotate_keeps_sync (s s' : S) (v : Nat) (h : Sync s) (hp : PInv s) (hr : rotateOwner s v = some s') :
+    Sync s' ∧ PInv s' ∧ s'.status = s.status ∧ s'.V = s.V := by
+  unfold rotateOwner at hr
+  split at hr
+  · cases hr
+    exact ⟨sync_congr s _ h rfl rfl rfl rfl, ⟨hp.out, hp.pend⟩, rfl, rfl⟩
+  · cases hr
+
 /-! ### Application wiring (table `Gen.App`) -/
 
 /-- the block structure of `Stake.block`: in BeginBlock signatures (slashing) are handled before evidence, both before
